@@ -373,13 +373,17 @@ Qed.
 
 Definition tens_ok (d : nat) (z : Z) (t : tensor) : Prop := wf (shp t) (dat t) /\ ndim t = d /\ dt t = z.
 
-(* the hypothesis on tensors handed to send_tensors: with fx_d10 no agreement on ndim is needed *)
+(* the hypothesis on tensors handed to send_tensors: with fx_d10 no agreement on ndim is needed, with
+   fx_d10 and fx_dt (dtype negotiation) no agreement on the dtype either *)
 Definition tens_okx (fx : fixes) (d : nat) (z : Z) (t : tensor) : Prop :=
-  wf (shp t) (dat t) /\ dt t = z /\ (fx_d10 fx = true \/ ndim t = d).
+  wf (shp t) (dat t) /\ (dt t = z \/ fx_d10 fx && fx_dt fx = true) /\ (fx_d10 fx = true \/ ndim t = d).
 Lemma tens_ok_x fx d z t : tens_ok d z t -> tens_okx fx d z t.
-Proof. intros (H1 & H2 & H3). split; [exact H1|]. split; [exact H3|right; exact H2]. Qed.
+Proof. intros (H1 & H2 & H3). split; [exact H1|]. split; [left; exact H3|right; exact H2]. Qed.
 Lemma tens_okx_ok fx d z t : fx_d10 fx = false -> tens_okx fx d z t -> tens_ok d z t.
-Proof. intros E (H1 & H2 & [H3|H3]); [congruence|]. split; [exact H1|]. split; assumption. Qed.
+Proof.
+  intros E (H1 & [H2|H2] & [H3|H3]); try congruence; [|rewrite E in H2; discriminate H2].
+  split; [exact H1|]. split; assumption.
+Qed.
 
 (* reshape to leading 1-extents and back *)
 Lemma unwrap_wrap k x : unwrap k (wrap k x) = x.
@@ -449,32 +453,23 @@ Proof.
   intros n E10 Hn Hok Ht. destruct d as [|d'].
   - refine (extK g (fun i => simple_send fx g dst i (ts i)) _ _ _ _ _).
     + intros i Hi. apply in_seq in Hi. destruct (Ht i ltac:(lia)) as (_ & Hd & _). unfold send_tensors, ndim in *.
-      rewrite E10. destruct (shp (ts i)); [reflexivity|discriminate].
+      rewrite E10. cbn [andb]. destruct (shp (ts i)); [reflexivity|discriminate].
     + apply (simple_send_run fx g dst ts (z, []) Hn Hok). intros i Hi. destruct (Ht i Hi) as (_ & Hd & Hz).
       unfold meta_of. f_equal; [exact Hz|]. unfold ndim in Hd. destruct (shp (ts i)); [reflexivity|discriminate].
   - refine (extK g (fun i => send_uneven fx g dst i (ts i)) _ _ _ _ _).
     + intros i Hi. apply in_seq in Hi. destruct (Ht i ltac:(lia)) as (_ & Hd & _). unfold send_tensors, ndim in *.
-      rewrite E10. destruct (shp (ts i)); [discriminate|reflexivity].
+      rewrite E10. cbn [andb]. destruct (shp (ts i)); [discriminate|reflexivity].
     + apply (send_uneven_run fx g dst ts (S d') z Hn Hok Ht).
 Qed.
 
-(* fx_d10: the ndims are negotiated first; any mix of ranks is delivered with its own shape *)
-Lemma send_tensors_d10 fx g dst (ts : nat -> tensor) z : let n := List.length g in
-  fx_d10 fx = true ->
+(* the part after the negotiation: any mix of ranks is delivered with its own shape *)
+Lemma send_nd_run fx g dst (ts : nat -> tensor) z ns : let n := List.length g in
   n > 0 -> dst_ok fx g dst -> (forall i, i < n -> wf (shp (ts i)) (dat (ts i)) /\ dt (ts i) = z) ->
-  run_all (respond g) (map (fun i => send_tensors fx g dst i (ts i)) (seq 0 n))
+  ns = map (fun x => ndim (ts x)) (seq 0 n) ->
+  run_all (respond g) (map (fun i => send_nd fx g dst i ns (ts i)) (seq 0 n))
   = Some (map (fun i => Ok (if receives dst i then Some (map ts (seq 0 n)) else None)) (seq 0 n)).
 Proof.
-  intros n E10 Hn Hok Ht. assert (Hne : seq 0 n <> []) by apply seq_ne, Hn.
-  unfold send_tensors. rewrite E10.
-  step (fun i => AllGather (of_shape [ndim (ts i)]))
-       (fun _ : nat => RTens (map (fun i => of_shape [ndim (ts i)]) (seq 0 n)));
-    [exact Hne|intros; reflexivity| |].
-  { apply (respond_allgather g (fun i => of_shape [ndim (ts i)]) (I64, [1])); [exact Hne|apply seq_length|].
-    intros; reflexivity. }
-  cbv beta iota zeta delta [cont]. rewrite map_map.
-  rewrite (map_ext (fun x => hd 0 (to_shape (of_shape [ndim (ts x)]))) (fun x => ndim (ts x)))
-    by (intros; rewrite to_of_shape; reflexivity).
+  intros n Hn Hok Ht ->. unfold send_nd. cbv zeta.
   set (ns := map (fun x => ndim (ts x)) (seq 0 n)). set (mx := maxl ns).
   assert (Hle : forall i, i < n -> ndim (ts i) <= mx).
   { intros i Hi. apply maxl_ge. unfold ns. apply (in_map (fun x => ndim (ts x))), in_seq. lia. }
@@ -490,13 +485,78 @@ Proof.
     do 3 f_equal. unfold ns. rewrite map2_map. apply map_ext. intros j. apply unlift_lift.
 Qed.
 
+(* fx_d10: the ndims are negotiated first; any mix of ranks is delivered with its own shape *)
+Lemma send_tensors_d10 fx g dst (ts : nat -> tensor) z : let n := List.length g in
+  fx_d10 fx = true -> fx_dt fx = false ->
+  n > 0 -> dst_ok fx g dst -> (forall i, i < n -> wf (shp (ts i)) (dat (ts i)) /\ dt (ts i) = z) ->
+  run_all (respond g) (map (fun i => send_tensors fx g dst i (ts i)) (seq 0 n))
+  = Some (map (fun i => Ok (if receives dst i then Some (map ts (seq 0 n)) else None)) (seq 0 n)).
+Proof.
+  intros n E10 Edt Hn Hok Ht. assert (Hne : seq 0 n <> []) by apply seq_ne, Hn.
+  unfold send_tensors. rewrite E10, Edt. cbn [andb].
+  step (fun i => AllGather (of_shape [ndim (ts i)]))
+       (fun _ : nat => RTens (map (fun i => of_shape [ndim (ts i)]) (seq 0 n)));
+    [exact Hne|intros; reflexivity| |].
+  { apply (respond_allgather g (fun i => of_shape [ndim (ts i)]) (I64, [1])); [exact Hne|apply seq_length|].
+    intros; reflexivity. }
+  cbv beta iota zeta delta [cont]. rewrite map_map.
+  rewrite (map_ext (fun x => hd 0 (to_shape (of_shape [ndim (ts x)]))) (fun x => ndim (ts x)))
+    by (intros; rewrite to_of_shape; reflexivity).
+  exact (send_nd_run fx g dst ts z _ Hn Hok Ht eq_refl).
+Qed.
+
+(* fx_dt: ndims AND dtypes are negotiated first; any mix of ranks and dtypes is delivered, every tensor with its
+   own shape and its own dtype *)
+Lemma all_same_map (f : nat -> Z) n : n > 0 -> all_same (map f (seq 0 n)) = true -> forall i, i < n -> f i = f 0.
+Proof.
+  intros Hn H i Hi. destruct n as [|n]; [lia|]. cbn [seq map all_same] in H.
+  destruct i as [|i]; [reflexivity|]. rewrite forallb_forall in H.
+  symmetry. apply Z.eqb_eq, H. apply (in_map f), in_seq. lia.
+Qed.
+Lemma cast_cast d t : cast (dt t) (cast d t) = t.
+Proof. destruct t; reflexivity. Qed.
+Lemma meta_of_ndim_dt t : meta_nd (of_ndim_dt t) = ndim t /\ meta_dt (of_ndim_dt t) = dt t.
+Proof. unfold meta_nd, meta_dt, of_ndim_dt, ndim. cbn [dat]. rewrite Nat2Z.id. split; reflexivity. Qed.
+
+Lemma send_tensors_dtfix fx g dst (ts : nat -> tensor) : let n := List.length g in
+  fx_d10 fx = true -> fx_dt fx = true ->
+  n > 0 -> dst_ok fx g dst -> (forall i, i < n -> wf (shp (ts i)) (dat (ts i))) ->
+  run_all (respond g) (map (fun i => send_tensors fx g dst i (ts i)) (seq 0 n))
+  = Some (map (fun i => Ok (if receives dst i then Some (map ts (seq 0 n)) else None)) (seq 0 n)).
+Proof.
+  intros n E10 Edt Hn Hok Ht. assert (Hne : seq 0 n <> []) by apply seq_ne, Hn.
+  unfold send_tensors. rewrite E10, Edt. cbn [andb]. unfold send_tensors_dt.
+  step (fun i => AllGather (of_ndim_dt (ts i)))
+       (fun _ : nat => RTens (map (fun i => of_ndim_dt (ts i)) (seq 0 n)));
+    [exact Hne|intros; reflexivity| |].
+  { apply (respond_allgather g (fun i => of_ndim_dt (ts i)) (3%Z, [2])); [exact Hne|apply seq_length|].
+    intros; reflexivity. }
+  cbv beta iota zeta delta [cont]. rewrite !map_map.
+  rewrite (map_ext (fun x => meta_nd (of_ndim_dt (ts x))) (fun x => ndim (ts x))) by (intros; apply meta_of_ndim_dt).
+  rewrite (map_ext (fun x => meta_dt (of_ndim_dt (ts x))) (fun x => dt (ts x))) by (intros; apply meta_of_ndim_dt).
+  set (ds := map (fun x => dt (ts x)) (seq 0 n)).
+  destruct (all_same ds) eqn:Hsame.
+  - apply (send_nd_run fx g dst ts (dt (ts 0)) _ Hn Hok); [|reflexivity].
+    intros i Hi. split; [apply Ht, Hi|]. exact (all_same_map (fun x => dt (ts x)) n Hn Hsame i Hi).
+  - bindr_with (fun i => send_nd fx g dst i (map (fun x => ndim (ts x)) (seq 0 n)) (cast (transport ds) (ts i)))
+               (fun i => if receives dst i then Some (map (fun i => cast (transport ds) (ts i)) (seq 0 n)) else None).
+    { apply (send_nd_run fx g dst (fun i => cast (transport ds) (ts i)) (transport ds) _ Hn Hok); [|reflexivity].
+      intros i Hi. split; [apply Ht, Hi|reflexivity]. }
+    apply run_all_ret_ext. intros i _. destruct (receives dst i); [|reflexivity]. cbn [option_map].
+    do 3 f_equal. unfold ds. rewrite map2_map. apply map_ext. intros j. apply cast_cast.
+Qed.
+
 Theorem send_tensors_lossless fx g dst (ts : nat -> tensor) d z : let n := List.length g in
   n > 0 -> dst_ok fx g dst -> (forall i, i < n -> tens_okx fx d z (ts i)) ->
   run_all (respond g) (map (fun i => send_tensors fx g dst i (ts i)) (seq 0 n))
   = Some (map (fun i => Ok (if receives dst i then Some (map ts (seq 0 n)) else None)) (seq 0 n)).
 Proof.
   intros n Hn Hok Ht. destruct (fx_d10 fx) eqn:E10.
-  - apply (send_tensors_d10 fx g dst ts z E10 Hn Hok). intros i Hi. destruct (Ht i Hi) as (H1 & H2 & _). split; assumption.
+  - destruct (fx_dt fx) eqn:Edt.
+    + apply (send_tensors_dtfix fx g dst ts E10 Edt Hn Hok). intros i Hi. apply (Ht i Hi).
+    + apply (send_tensors_d10 fx g dst ts z E10 Edt Hn Hok). intros i Hi. destruct (Ht i Hi) as (H1 & [H2|H2] & _).
+      * split; assumption.
+      * rewrite E10, Edt in H2. discriminate H2.
   - apply (send_tensors_code fx g dst ts d z E10 Hn Hok). intros i Hi. apply (tens_okx_ok fx), Ht, Hi. exact E10.
 Qed.
 
@@ -1296,8 +1356,18 @@ Corollary send_tensors_lossless_fixed g dst (ts : nat -> tensor) z : let n := Li
   run_all (respond g) (map (fun i => send_tensors V_fixed g dst i (ts i)) (seq 0 n))
   = Some (map (fun i => Ok (if receives dst i then Some (map ts (seq 0 n)) else None)) (seq 0 n)).
 Proof.
-  intros n Hn Hnd Hd Ht. exact (send_tensors_d10 V_fixed g dst ts z eq_refl Hn (dst_ok_fixed g dst Hnd Hd) Ht).
+  intros n Hn Hnd Hd Ht.
+  exact (send_tensors_dtfix V_fixed g dst ts eq_refl eq_refl Hn (dst_ok_fixed g dst Hnd Hd) (fun i Hi => proj1 (Ht i Hi))).
 Qed.
+
+(* V_fixed (ndim and dtype negotiation): any duplicate-free group, any named rank, tensors of ANY per-rank ndim and
+   dtype: every receiver obtains, per sending rank, exactly the tensor that rank sent (shape, dtype, content) *)
+Corollary send_tensors_lossless_any_dtype fx g dst (ts : nat -> tensor) : let n := List.length g in
+  fx_d10 fx = true -> fx_dt fx = true ->
+  n > 0 -> dst_ok fx g dst -> (forall i, i < n -> wf (shp (ts i)) (dat (ts i))) ->
+  run_all (respond g) (map (fun i => send_tensors fx g dst i (ts i)) (seq 0 n))
+  = Some (map (fun i => Ok (if receives dst i then Some (map ts (seq 0 n)) else None)) (seq 0 n)).
+Proof. exact (send_tensors_dtfix fx g dst ts). Qed.
 
 (* no all-empty exception, any duplicate-free group *)
 Corollary list_sync_lossless_fixed g dst Wg (xss : nat -> list tensor) d z : let n := List.length g in
